@@ -177,6 +177,10 @@ def _process_fixed(ctx: Ctx, c: dict) -> None:
             for nm, text in c["files"].items():
                 (td / nm).parent.mkdir(parents=True, exist_ok=True)
                 (td / nm).write_text(text)
+            for nm, tgt in (c.get("links") or {}).items():
+                import os
+                (td / nm).parent.mkdir(parents=True, exist_ok=True)
+                os.symlink(td / tgt, td / nm, target_is_directory=True)
             reset_globals()
             got = spec.strip_placeholders(impl.plain(DictReader.read(td / c["root"])))
     except Exception as e:  # noqa: BLE001
@@ -324,6 +328,12 @@ def run(ctx: Ctx) -> None:
                 root = "root.json"
             exp = {key: 998, "q": 1, "z": 2} if own else {other: 1000, key: 1000, "q": 1, "z": 2}
             cases.append({"kind": "fixed", "files": files, "root": root, "expect": exp})
+    # an include reached through `<link to a folder>/../name`: the file system resolves the link first, so the included file is the
+    # one next to the link's TARGET, and its own relative includes are anchored there
+    cases.append({"kind": "fixed", "root": "case/root",
+                  "files": {"case/root": "#include 'shared/../mid'\nr 1;\n", "lib/v2/dicts/x": "x 0;\n", "lib/v2/mid": "#include 'leaf'\nm 2;\n",
+                            "lib/v2/leaf": "l 3;\n", "case/leaf": "wrong 9;\n", "case/mid": "wrongmid 8;\n"},
+                  "links": {"case/shared": "lib/v2/dicts"}, "expect": {"r": 1, "m": 2, "l": 3}})
     # include chains of 9 ... 14 files across alternating folders: every key of every reachable file is present
     for n in (9, 10, 11, 12, 14):
         files = {("d/" if i % 2 else "") + f"c{i}": (f"#include '{'../' if i % 2 else 'd/'}c{i + 1}'\n" if i < n else "") + f"k{i} {i};\n" for i in range(n + 1)}
